@@ -216,7 +216,11 @@ func checkC05(c c05Case) *evid.Fail {
 	reused := newC05Instance(c.Kind, c.Opts)
 	for i, st := range c.Steps {
 		got := reused.run(st)
-		want := newC05Instance(c.Kind, c.Opts).run(st)
+		// the fresh instance fetches without asking first: how often the presence of a next token was queried
+		// must not matter either
+		plain := st
+		plain.HasNext = 0
+		want := newC05Instance(c.Kind, c.Opts).run(plain)
 		if strings.Contains(want, "RESCAN-DIFFERS") {
 			return evid.F("rescan-differs:"+c.Kind, "%s instance, input %q: %s", c.Kind, st.Input, want)
 		}
